@@ -58,14 +58,18 @@ func c02Set(cfg int) *Set {
 		return NewSet(l, WithDelims("<%=", "%>"))
 	case 6:
 		return NewSet(l, WithDelims("${", "}"), WithCommentDelims("<!--", "-->"))
+	case 8: // only the left comment marker configured: the right one keeps its default
+		return NewSet(l, WithCommentDelims("<#", ""))
+	case 9: // only the right comment marker configured
+		return NewSet(l, WithCommentDelims("", "#}"))
 	case 7: // delimiters that do not start with an ASCII byte
 		return NewSet(l, WithDelims("\u00ab", "\u00bb"), WithCommentDelims("\u00a1", "!"))
 	}
 	return NewSet(l)
 }
 
-var c02Left = []string{"{{", "[[", "<%", "[[[", "{", "<%=", "${", "\u00ab"}
-var c02Right = []string{"}}", "]]", "%>", "]]]", "}", "%>", "}", "\u00bb"}
+var c02Left = []string{"{{", "[[", "<%", "[[[", "{", "<%=", "${", "\u00ab", "{{", "{{"}
+var c02Right = []string{"}}", "]]", "%>", "]]]", "}", "%>", "}", "\u00bb", "}}", "}}"}
 
 // H_C02_action: "{{" + N arbitrary bytes [+ "}}"] with the default delimiters: Parse is
 // total. N = 2 (quick) / 3 (thorough).
@@ -358,6 +362,11 @@ func H_C02_comment() {
 //gosym:opts maxviol=1000
 func H_C02_refgraph() {
 	targets := []string{"/a.jet", "/b.jet", "/missing.jet", "/leaf.jet"}
+	if ndBool("shortNames") {
+		// the same graph written with names that rely on the extension lookup and on
+		// resolution against the referring file
+		targets = []string{"a", "./b", "missing", "/leaf"}
+	}
 	kw := []string{"extends", "import"}
 	l := NewInMemLoader()
 	ta := ndChoice("a.target", 4)
